@@ -649,6 +649,10 @@ def run(ctx):
         process(ctx, ex[i:i + 800])
         if len(ctx.violations) > 10:
             return
+    # 1b. oracle-only: simulate_time_course with requested points that are not dyadic, exact labels
+    from . import c04grid
+
+    c04grid.run(ctx, ctx.n(300, 4000), protocols=False)
     # 2. random longer histories
     n = ctx.n(1500, 60000) * (1 if ctx.proof_ok or thorough else 4)
     done = 0
@@ -662,6 +666,10 @@ def run(ctx):
 
 def replay(ctx, rp):
     case = rp.get("case") or rp
+    if case.get("grid"):
+        from . import c04grid
+
+        return c04grid.replay(ctx, case)
     (real, drv), = evaluate([case], ctx.driver_ok, parallel=False)
     if drv is not None:
         R, M, S, okhist = assemble(case, real, drv)
